@@ -203,7 +203,7 @@ func tryPanicReplay(P *Program, vc *VC, r *Result, rf *ReplayFile) bool {
 	fmt.Fprintf(&src, "package %s\n\nimport (\n\t\"fmt\"\n\t\"testing\"\n)\n\n// generated by govc: replay of %s\nfunc TestGovcReplay(t *testing.T) {\n\tdefer func() {\n\t\tif e := recover(); e != nil {\n\t\t\tfmt.Printf(\"GOVC-PANIC %%v\\n\", e)\n\t\t}\n\t}()\n\t%s(%s)\n\tfmt.Println(\"GOVC-NO-PANIC\")\n}\n", fn.Pkg.Pkg.Name(), r.Obl.Name, fn.Name(), strings.Join(goArgs, ", "))
 	dir := filepath.Join(verifRoot, "out", "replay", rf.Property)
 	os.MkdirAll(dir, 0o755)
-	testFile := filepath.Join(dir, sanitizeFile(r.Obl.Name)+"_test.go")
+	testFile := uniquePath(dir, sanitizeFile(r.Obl.Name), "_test.go")
 	os.WriteFile(testFile, []byte(src.String()), 0o644)
 	rf.ReplayTest = testFile
 	_, outRun := runReplayTest(testFile, vc.fnName)
@@ -360,7 +360,7 @@ func tryScalarReplay(P *Program, vc *VC, r *Result, rf *ReplayFile) bool {
 	src.WriteString("}\n")
 	dir := filepath.Join(verifRoot, "out", "replay", rf.Property)
 	os.MkdirAll(dir, 0o755)
-	testFile := filepath.Join(dir, sanitizeFile(r.Obl.Name)+"_test.go")
+	testFile := uniquePath(dir, sanitizeFile(r.Obl.Name), "_test.go")
 	os.WriteFile(testFile, []byte(src.String()), 0o644)
 	rf.ReplayTest = testFile
 	okRun, outRun := runReplayTest(testFile, vc.fnName)
